@@ -152,7 +152,7 @@ def histories(ctx, quick):
     hs = [p['hist'] for p in res.printed]
     cfg = 'SPECIFICATION Spec\nCONSTANTS\n MaxLen = %d\n Emit = TRUE\nINVARIANT PrintDone\n' % (6 if quick else 8)
     res = tlc.run(ctx.workdir, 'ApiHistory', cfg, workers=1, label='ApiHistory_sim', coverage=False,
-                  simulate='num=%d' % (150 if quick else 5000), depth=10, seed=ctx.seed + 1)
+                  simulate='num=%d' % (150 if quick else 1500), depth=10, seed=ctx.seed + 1)
     ctx.add_tlc(res, 'ApiHistory simulate len<=%d' % (6 if quick else 8))
     hs += [p['hist'] for p in res.printed]
     return hs
@@ -361,7 +361,7 @@ def run(ctx):
                             out.append(({'history': [x['op'] for x in h[:i + 1]], 'tags': ['history'], 'clause': 'result-depends-on-history'},
                                         'after history %s the reference calls give other results than in a fresh process' % [x['op'] for x in h[:i + 1]]))
                             break
-                        if i == len(h) - 1 or not quick:
+                        if i == len(h) - 1 or (not quick and hrng.random() < 0.3):
                             order = hrng.sample(range(len(ents)), min(len(ents), 20 if quick else 60))
                             if differs([x['op'] for x in h[:i + 1]], order, out):
                                 break
